@@ -23,6 +23,26 @@ TIERS = {"quick": dict(shards=16, cases=6000), "thorough": dict(shards=16, cases
 def run_case(ctx, rng, case):
     from d42 import fake, schema, validate
     G = mod("d42.generation")
+    if case < 150:
+        # systematic part, independent of the seed: every explicit upper bound 1..75 (a bound must never be confused
+        # with a constant of the regex engine), with a cap above and below it
+        n = case // 2 + 1
+        pat = ("a{0,%d}" % n) if case % 2 == 0 else ("(?:ab){1,%d}x" % n)
+        rx = re.compile(pat)
+        ctx.distinct(["systematic_bound", n, case % 2], True)
+        for max_repeat in (100, 32, 3):
+            gen = G.RegexGenerator(G.Random(), max_repeat=max_repeat)
+            for sched in ("hi", "lo", "mid", "seeded"):
+                adv = advrandom.Adversary(sched, seed=rng.getrandbits(32))
+                with advrandom.installed(adv):
+                    try:
+                        out, exc = gen.generate(pat), None
+                    except Exception as e:  # noqa
+                        out, exc = None, e
+                ctx.count("generate_calls")
+                ctx.count("systematic_bound_generations")
+                judge(ctx, pat, rx, out, exc, False, [], f"systematic/max_repeat={max_repeat}/{sched}")
+        return
     unsupported = (case % 3 == 2)
     node = regexgen.gen_pattern(rng, depth=rng.choice((0, 1, 2, 2, 3)), anchors=True,
                                 big_repeat=rng.random() < 0.3, unsupported=unsupported)
